@@ -507,7 +507,13 @@ class SimProcess:
         at = getattr(self, "died_at", "")
         # a death after the worker's own exit announcement (it is waiting for / holds its exit lock, or is past it)
         late = at.startswith("exitlock") or at.startswith("gslock") or at in ("done",)
-        S.obs(ev="die", pid=self.pid, how=how, code=code, at=at, late=late)
+        # why a clean exit happened: the worker went through its idle-timeout path, or it received a sentinel
+        hist = []
+        for r in S.recs.values():
+            if r["proc"] == self.pid:
+                hist = r.get("since_get", [])
+        reason = "timeout" if any(l.endswith("mgmt.try") for l in hist) else "sentinel"
+        S.obs(ev="die", pid=self.pid, how=how, code=code, at=at, late=late, reason=reason if how == "exit" else how)
 
     def is_alive(self):
         S.step("is_alive(%s)" % self.pid)
